@@ -54,7 +54,7 @@ def run_case(ctx, case):
 MANIFEST = {
     "text": "Quota / distinctness / forbidden-cell / finishing-step invariants on every finished row and per-step equality of "
             "the live features with their recomputation, over many quotas (1..n), keep-out densities and selection orders. "
-            "Exploration over instances x selection orders.",
+            "Exploration over instances x selection orders. Also FLP with 40 / 100 locations.",
     "note": "Recomputations are plain Python over the reset-time snapshot (MCP overwrites membership/weights while stepping).",
     "technique": "runtime monitoring: per-step invariant + recomputation monitor on recorded selection episodes",
     "design_ref": "DESIGN.md section 4 / C08",
